@@ -61,6 +61,35 @@ Definition run_ppkey (x : sx) : sx :=
   | None => err "bad request"
   end.
 
+(* leg "driver": ( (label..) ( (exe kind version) ... ) pp_text exe_bytes ),  version = () | ( #text ).
+   What get_compiler_info + generate_hash_key make of `exe -c foo.c -o foo.o` when the detection probe answers
+   compiler_id=kind: the compiler digest is H(H(exe_bytes) ++ version) (c.rs CCompiler::new; just H(exe_bytes) without
+   a version), plusplus comes from the translated detect_c_compiler table, the language of foo.c is C for a C driver
+   and C++ for a C++ driver (gcc.rs parse_arguments), nothing else is hashed.  A nested list ( piece ... ) stands for the 64 hex characters of the digest of its pieces. *)
+Definition run_driver (ppt exe : sx) (d : sx) : sx :=
+  match d with
+  | SL [_; k; SL v] =>
+      match driver_pp the_drivers (get_B k) with
+      | Some b =>
+          let r := {| digest := []; plusplus := b; lang := (if b then bs "Cxx" else bs "C"); args := []; extra := []; env := [];
+                      pp := get_B ppt; path := []; input := []; ignore_time := false;
+                      date := (0, 0, 0); sde := None; mtime := (0, 0) |} in
+          let dg := match v with
+                    | ver :: _ => SL [SL [SB (get_B exe)]; SB (get_B ver)]
+                    | [] => SL [SB (get_B exe)]
+                    end in
+          SL (dg :: map enc_piece (tl (pieces_c the_spec r)))
+      | None => sym "undetected"
+      end
+  | _ => err "bad driver"
+  end.
+
+Definition run_drivers (x : sx) : sx :=
+  match x with
+  | SL [_; SL ds; ppt; exe] => SL (map (run_driver ppt exe) ds)
+  | _ => err "bad case"
+  end.
+
 (* a case is ( (label ...) (request ...) ); the labels only name the mutation for the statistics *)
 Definition group_of (x : sx) : list sx :=
   match x with
@@ -72,5 +101,6 @@ Definition dispatch (leg : list N) (x : sx) : sx :=
   if bytes_eqb leg (bs "lp") then SL [SB (lp (get_B x)); SN 1]
   else if bytes_eqb leg (bs "key") then SL (map run_key (group_of x))
   else if bytes_eqb leg (bs "ppkey") then SL (map run_ppkey (group_of x))
+  else if bytes_eqb leg (bs "driver") then run_drivers x
   else if bytes_eqb leg (bs "ppkey-root") then SL (map run_ppkey (group_of x))
   else err "unknown leg".
